@@ -1320,3 +1320,66 @@ def dzn_elements_by_interpretation(ctx):
     out['#'] = [str(n_scen[0])]
     ctx.__dict__['_dzn_elements_by_interpretation'] = out
     return out
+
+
+# ---- what the shell header / source are composed of, read off the evaluated file templates (E4) ---------------------------------------
+def shell_frame_anchors(ctx):
+    """The header and the source file of the shell evaluated with the E4 evaluator (Builder._create_headerfile /
+    _create_sourcefile over a symbolic recipe, whatever helper methods, section builders or part records they are organised
+    into): per file the ordered list of what the text is rendered from - ('hole', 'cpp.<path>') for a value of the recipe's
+    C++ elements, ('rep', '<collection>', {inner paths}) for a repetition over one of its collections.  None when the
+    templates cannot be evaluated (the rules that ask fall back to the source text of the two methods)."""
+    if '_shell_frame_anchors' in ctx.__dict__:
+        return ctx.__dict__['_shell_frame_anchors']
+    ctx.__dict__['_shell_frame_anchors'] = None
+    from ..template import Hole, AltS, RepS
+    from ..report import AnalysisError
+    try:
+        from .c06 import _frames
+        frames = _frames(ctx)
+    except AnalysisError:
+        return None
+    except Exception:       # pylint: disable=broad-except
+        return None
+
+    def walk(s, out):
+        for p in s.parts:
+            if isinstance(p, Hole):
+                out.append(('hole', p.sym.text()))
+            elif isinstance(p, AltS):
+                walk(p.a, out)
+                walk(p.b, out)
+            elif isinstance(p, RepS):
+                inner = walk(p.elem, [])
+                paths = set()
+                for a in inner:
+                    paths.add(a[1].split('.', 1)[-1] if a[0] == 'hole' else 'rep:' + a[1])
+                    if a[0] == 'rep':
+                        paths |= a[2]
+                out.append(('rep', repr(p.src.base).strip('<>'), paths))
+        return out
+    res = {}
+    for (m, named), t in frames.items():
+        if named:
+            res['header' if m == '_create_headerfile' else 'source'] = walk(t, [])
+    if set(res) != {'header', 'source'}:
+        return None
+    ctx.__dict__['_shell_frame_anchors'] = res
+    return res
+
+
+def frame_entities(anchors: list, marker: str) -> set:
+    """Entities of the C++ elements of which the file renders the part `marker` ('initialization': every declaration of a
+    function / constructor renders it; 'contents': every definition does): 'constructor', 'facilities.locator_accessor_fn',
+    'provides_ports.ports[].accessor_fn', ..."""
+    out = set()
+    for a in anchors:
+        if a[0] == 'hole' and a[1].startswith('cpp.') and a[1].endswith('.' + marker):
+            out.add(a[1][len('cpp.'):-len(marker) - 1])
+        elif a[0] == 'rep' and a[1].startswith('cpp.'):
+            for p in a[2]:
+                if p == marker:
+                    out.add(a[1][len('cpp.'):] + '[]')
+                elif p.endswith('.' + marker):
+                    out.add(a[1][len('cpp.'):] + '[].' + p[:-len(marker) - 1])
+    return out
